@@ -40,7 +40,7 @@ Proof.
 Qed.
 
 (* ------------------------------------------------------------------ step-local facts (for the _partial theorems) *)
-Definition is_run (e : event) : bool := match e with EvRun _ _ _ => true | _ => false end.
+Definition is_run (e : event) : bool := match e with EvRun _ _ _ _ => true | _ => false end.
 Lemma step_logs_at_most_one_run c t c' : step c t = Some c' ->
   exists evs, log c' = evs ++ log c /\ length (filter is_run evs) <= 1.
 Proof.
